@@ -315,11 +315,35 @@ func reportRankBuilders(w *World, r *Report, fns map[string]*ssa.Function, build
 		case "bitmap.IndexRank128":
 			found, badP := false, ""
 			for _, e := range entries {
-				call, ok := e.ins.(*ssa.Call)
-				if !ok {
+				// the final entry is appended, or stored at index len(words)/2 of a pre-sized index
+				switch x := e.ins.(type) {
+				case *ssa.Call:
+				case *ssa.Store:
+					if ai.IVPhi != nil && loopBody(ai.IVPhi.Block())[x.Block()] {
+						// the in-loop store: entry k of block k, i.e. index i>>1 for the word counter i (step 2)
+						if ia, ok := x.Addr.(*ssa.IndexAddr); ok {
+							if ix, c, ok := asShiftRight(ia.Index); !ok || c != 1 || stripConv(ix) != ssa.Value(ai.IVPhi) || ai.Step != 2 {
+								badP = "the entry of a block is stored at index " + fa.Lin(ia.Index).String() + ", expected (word index)>>1"
+							}
+						}
+						continue
+					}
+					ia, _ := x.Addr.(*ssa.IndexAddr)
+					lw := linAtom("call:builtin len(p0)")
+					okIdx := false
+					if ia != nil {
+						if ix, c, ok := asShiftRight(ia.Index); ok && c == 1 && fa.Lin(ix).Eq(lw) {
+							okIdx = true
+						}
+					}
+					if !okIdx {
+						badP = "the final entry is not stored at index len(words)/2"
+					}
+				default:
 					continue
 				}
-				if ai.IVPhi != nil && ai.IVPhi.Block().Dominates(call.Block()) && fa.Reaches(call.Block(), ai.IVPhi.Block()) {
+				call := e.ins
+				if ai.IVPhi != nil && loopBody(ai.IVPhi.Block())[call.Block()] {
 					continue // in-loop append
 				}
 				found = true
